@@ -294,7 +294,9 @@ func r14Paired(c *core.Ctx, p *load.Program) {
 			}
 		}
 	}
-	sort.Slice(pairs, func(i, j int) bool { return typeKey(pairs[i].named)+pairs[i].val < typeKey(pairs[j].named)+pairs[j].val })
+	sort.Slice(pairs, func(i, j int) bool {
+		return typeKey(pairs[i].named)+pairs[i].val < typeKey(pairs[j].named)+pairs[j].val
+	})
 	seen := map[string]bool{}
 	for _, pr := range pairs {
 		id := typeKey(pr.named) + "." + pr.val + "/" + pr.err
